@@ -114,6 +114,9 @@ def probe_instants(spec, years, grid_days):
             base = datetime.datetime.combine(rule_date(y, r), datetime.time()) + datetime.timedelta(seconds=t - o)
             for d in (-86400, -7201, -7200, -3601, -3600, -1801, -1800, -1, 0, 1, 1799, 1800, 3599, 3600, 7199, 7200, 86400):
                 out.append((base + datetime.timedelta(seconds=d), True))
+        ny = datetime.datetime(y, 1, 1)
+        for d in (0, 1, -1, -spec["std"], -spec["dst"], -spec["std"] + 1, -spec["dst"] - 1, 43200, -43200, 50400, -50400):
+            out.append((ny + datetime.timedelta(seconds=d), True))
         if grid_days:
             d0 = datetime.datetime(y, 1, 20)
             for k in range(0, 330, grid_days):
@@ -281,8 +284,44 @@ def equivalent_tzrange(spec):
     save = spec["dst"] - spec["std"]
     return tz.tzrange("AAA", spec["std"], "BBB", spec["dst"], delta(spec["sr"], spec["st"]), delta(spec["er"], spec["et"] - save))
 
+def _rule_in_class(spec, which):
+    save = spec["dst"] - spec["std"]
+    if which == "start":
+        return spec["sr"][0] == "M" and not (0 <= spec["st"] < 86400)
+    return spec["er"][0] == "M" and not (0 <= spec["et"] - save < 86400)
+
+def explained_by_d_c08(ctx, z, spec, u, got, wall_ok):
+    """Is this failure exactly the known defect?  Only if (a) the answer is a well-formed zone state (the std or the dst
+    triple, wall = utc + offset), i.e. the zone merely switched at the wrong moment, and (b) the instant lies between the
+    POSIX transition (Lean spec) and the transition the implementation itself computed for an Mm.w.d rule whose time of
+    day is outside [0, 24 h).  Anything else in such a zone is reported as a violation."""
+    save = spec["dst"] - spec["std"]
+    if not wall_ok or got not in ((spec["std"], "AAA", False, 0), (spec["dst"], "BBB", True, save)):
+        return False
+    us = to_secs(u)
+    y = u.year
+    years = [yy for yy in (y - 1, y, y + 1) if 1 < yy < 9999]
+    ords = ctx.driver(["posix.rule %s %d" % (rule_wire(spec[k]), yy) for yy in years for k in ("sr", "er")])
+    for i, yy in enumerate(years):
+        try:
+            tr = z.transitions(yy)
+        except Exception:
+            return False
+        if tr is None:
+            return False
+        p_start = int(ords[2 * i].split()[1]) * 86400 + spec["st"] - spec["std"]
+        p_end = int(ords[2 * i + 1].split()[1]) * 86400 + spec["et"] - spec["dst"]
+        i_start = to_secs(tr[0]) - spec["std"]
+        i_end = to_secs(tr[1]) - spec["std"]
+        if _rule_in_class(spec, "start") and min(p_start, i_start) <= us < max(p_start, i_start):
+            return True
+        if _rule_in_class(spec, "end") and min(p_end, i_end) <= us < max(p_end, i_end):
+            return True
+    return False
+
 def check_zone(ctx, what, z, spec, instants, expect, tag):
     from dateutil import tz
+    bad = 0
     for (u, near), e in zip(instants, expect):
         _, eoff, eisdst = e.split()
         eoff = int(eoff); eisdst = eisdst == "1"
@@ -296,11 +335,17 @@ def check_zone(ctx, what, z, spec, instants, expect, tag):
         ctx.case((spec["s"], tag, to_secs(u)), nontrivial=near)
         want = (eoff, "BBB" if eisdst else "AAA", eisdst, (spec["dst"] - spec["std"]) if eisdst else 0)
         if got != want or not wall_ok:
+            known = what in ("tzstr", "tzrange") and in_d_c08(spec) and explained_by_d_c08(ctx, z, spec, u, got, wall_ok)
+            ctx.count("d_c08_explained_failures" if known else "unexplained_posix_failures")
+            if known and ctx.hist["d_c08_explained_failures"] > 40:
+                continue            # counted; keep room in the violation list for anything else
             ctx.violation("%s(%r) at %sZ reports offset/abbr/isdst/dst %r, POSIX prescribes %r" % (what, spec["s"], u.isoformat(), got, want),
                           {"kind": "posix", "zone": what, "s": spec["s"], "utc": u.isoformat(), "spec": {k: spec[k] for k in ("std", "dst", "sr", "st", "er", "et")},
-                           "d_c08": in_d_c08(spec)}, {"got": got, "want": want})
-            return False
-    return True
+                           "d_c08": known}, {"got": got, "want": want})
+            bad += 1
+            if not known and bad >= 3:
+                return False
+    return bad == 0
 
 def oracle(ctx):
     from dateutil import tz
@@ -337,7 +382,7 @@ def oracle(ctx):
                 ctx.violation("tzstr(%r) != equivalent tzrange" % spec["s"], {"kind": "eq", "s": spec["s"]},
                               {"tzstr": [repr(zs._start_delta), repr(zs._end_delta)], "tzrange": [repr(zr._start_delta), repr(zr._end_delta)]})
         # tzlocal under TZ=<string> (glibc): only instants representable by time_t on this platform
-        if k % 3 == 0 and not in_d_c08(spec):
+        if k % 3 == 0:
             old = os.environ.get("TZ")
             try:
                 os.environ["TZ"] = posix_canon(spec); time.tzset()
@@ -407,11 +452,14 @@ def oracle(ctx):
     ctx.sample({"malformed": "EST5EDT,M3.2.0", "expected": "ValueError"})
 
 def _is_unicode_digit_offset(case):
-    s = case.get("s", "")
+    # a non-ASCII decimal digit inside the std/dst offset field (before the first comma): int() accepts it
+    s = case.get("s", "").split(",")[0]
     return any(c.isdigit() and not c.isascii() for c in s)
 
 KNOWN = {
     # _delta puts the time of day into the same relativedelta as the weekday; relativedelta applies the weekday AFTER adding the time
+    # d_c08 is True only when explained_by_d_c08 confirmed the symptom (a well-formed state switched at the transition the
+    # implementation itself computed, between it and the POSIX transition), not merely the input class
     "D-C08-time-before-weekday": lambda v: v["case"].get("kind") == "posix" and v["case"].get("d_c08") is True
         and v["case"].get("zone") in ("tzstr", "tzrange"),
     # characters outside the grammar adjacent to an abbreviation run are absorbed into the abbreviation
